@@ -14,6 +14,7 @@ import os
 from . import common
 from . import lib_deps as L
 from . import c13
+import time
 from .common import parallel_map
 
 RULE = ("cases = (declared graph as in C13 with extra tags, target product, recursive, check, force, products set up in "
@@ -223,10 +224,10 @@ def oracle(R, graph, case, io_, closures):
             rr = R.reach(nodes, expanded)
             cyclic = any(any(b != a and b in rr[a] and a in rr.get(b, ()) for b in nodes) for a in nodes) or top in listed
             if check and unsetup_any:
-                yield ("terminates", "D32", "RecursionError from the in-use check (unsetupRequired inside a cycle)")
+                yield ("terminates", None, "RecursionError from the in-use check (unsetupRequired inside a cycle: D32, repaired)")
             elif rec and unsetup_any:
                 # also when the closure is cyclic: the model (which has the D33 repair) must reproduce the outcome
-                yield ("terminates", "D32", "RecursionError: unsetupRequired line met while listing direct dependencies")
+                yield ("terminates", None, "RecursionError: unsetupRequired line met while listing direct dependencies (D32, repaired)")
             elif rec and cyclic:
                 yield ("terminates", None, "RecursionError: recursive remove over a cyclic dependency closure (D33, repaired)")
             else:
@@ -380,14 +381,15 @@ def run(ctx):
         evaluate(ctx, [c13.enum_graph(i, 2) for i in ids[at:at + 32]], all_cases=True)
     n = ctx.n(45, 5000)
     done = 0
-    while done < n and not ctx.out_of_time():
-        k = min(40, n - done)
+    soft = (lambda: time.time() - ctx.t0 > 110) if ctx.tier != "thorough" and not ctx.escalated else (lambda: False)
+    while done < n and not ctx.out_of_time() and not soft():       # a loaded machine: fewer cases rather than a late verdict
+        k = min(15 if ctx.tier != "thorough" else 40, n - done)
         evaluate(ctx, [gen_graph(ctx.rng, wide=ctx.tier == "thorough") for _ in range(k)])
         done += k
     if ctx.evaluations and ctx.distinct_nontrivial < ctx.evaluations * 0.3:
         raise common.InfraError("degenerate distribution: %d non-trivial of %d" % (ctx.distinct_nontrivial, ctx.evaluations))
     h = ctx.histogram
-    if not ctx.escalated and n >= 40:
+    if not ctx.escalated and done >= 30:
         for need in ("target:has_user", "target:has_dependency", "target:shares_dependency"):
             if not h.get(need):
                 raise common.InfraError("degenerate distribution: no case with %s" % need)
